@@ -29,7 +29,7 @@
    through the three command-line tools and through design()). *)
 From Coq Require Import List String Ascii Arith Bool.
 From PC Require Import Base.Codes Comp.Syntax Comp.Compile Comp.Denote Comp.EmitProofs Sys.System Finish.Apply Finish.ApplyProofs Design.ShapeProofs Design.ComposeProofs
-  Design.Designer Design.TemplateProofs Design.DGraph Design.DenoteGraph Design.DenoteTie Design.DenoteSat Design.Results Design.ResultsProofs Design.Loaded Design.LoadedStruct Design.CrossProofs Design.EndToEnd Base.Sexp Comp.WfPil Comp.NameProofs Sys.System Sys.DesSys Sys.SysWfPil Sys.SysDesign Design.RecNames Design.EndToEndNames Design.SysFinish.
+  Design.Designer Design.TemplateProofs Design.DGraph Design.DenoteGraph Design.DenoteTie Design.DenoteSat Design.Results Design.ResultsProofs Design.Loaded Design.LoadedStruct Design.CrossProofs Design.EndToEnd Base.Sexp Comp.WfPil Comp.NameProofs Sys.System Sys.DesSys Sys.SysWfPil Sys.SysDesign Design.RecNames Design.EndToEndNames Design.SysFinish Sys.PrefixProofs Sys.SysNames.
 Import ListNotations.
 
 Theorem C06_finished_bases_consistent_partial : forall t prefix bs vals, base_values t prefix bs = OK vals ->
@@ -250,3 +250,26 @@ Theorem C06_compiled_system_end_to_end : forall fs includes ctr basename args li
            (NoDup (map fst recs) -> exists f, apply_obj 12 (table_of recs) o = OK f)).
 Proof. exact compiled_system_end_to_end. Qed.
 Print Assumptions C06_compiled_system_end_to_end.
+
+(* whole nested systems with no hypothesis on the records: names that are identifiers (no '*'; instance and signal names without
+   '-'; no structure named like a sequence of its component) - a boolean on the loaded object, evaluated on every generated system *)
+Theorem C06_system_record_names_distinct : forall o p a recs, sys_wf 12 o -> wp "" o -> names_ok2 12 o ->
+  load_spec (emit_obj 12 o) pspec0 = OK p -> output_records p a = OK recs -> NoDup (map fst recs).
+Proof. exact system_record_names_distinct. Qed.
+Print Assumptions C06_system_record_names_distinct.
+
+Theorem C06_compiled_system_end_to_end_unconditional : forall fs includes ctr basename args lines ctr',
+  compile_top fs includes ctr basename args [] = OK (lines, ctr') ->
+  (forall o, load_file fs includes 12 ctr basename args "" "." = OK (o, ctr') -> names_ok2 12 o) ->
+  (forall n k len, In (PSeq n k len) lines -> valid_template k = true) ->
+  exists o p lay g, load_file fs includes 12 ctr basename args "" "." = OK (o, ctr') /\ load_spec lines pspec0 = OK p /\ seed p false = OK (lay, g) /\
+    (get_constraints p false = DOver \/
+     exists e w s, get_constraints p false = DOk e w s /\
+       forall nts, fits nts e w ->
+         exists a recs, process_results p lay nts = OK a /\ output_records p a = OK recs /\ exists f, apply_obj 12 (table_of recs) o = OK f).
+Proof. exact compiled_system_end_to_end_names. Qed.
+Print Assumptions C06_compiled_system_end_to_end_unconditional.
+
+Theorem C06_names_ok2b_sound : forall f o, names_ok2b f o = true -> names_ok2 f o.
+Proof. exact names_ok2b_sound. Qed.
+Print Assumptions C06_names_ok2b_sound.
